@@ -1,6 +1,6 @@
 CONSTANTS MaxSteps = 3
           Shape = "focused"
-          SeedNames = {"num", "nan", "mixed", "ties", "dup"}
+          SeedNames = {"num", "nan", "mixed", "dup"}
           Hist = TRUE
 INIT Init
 NEXT Next
